@@ -150,8 +150,14 @@ def clause_gates(R):
         reach = any(c[0] == "solve" for c in cl)
         R.check(reach == want, "C04-gate", f"ntru_gen: gamma {nm} 1.17^2 q = {thr:.4f}", "accepted" if want else "rejected (retry)",
                 f"gamma = {gamma} is {'accepted' if reach else 'rejected'}: the Gram-Schmidt bound applied is not 1.17^2 q", key=f"gate|gs|{nm}")
-    R.check(fc and all(abs(f[4][0] - thr) <= 1e-9 * thr and f[4][0] == f[4][1] for f in fc), "C04-const", "ntru_gen threshold", f"gamma is compared with {fc[0][4][0] if fc else '?'} = 1.3689 q",
-            f"comparisons: {[(f[0], f[4]) for f in fc[:3]]}", key="const|thr")
+    # the constant side of the comparison, whichever side it is written on
+    consts = []
+    for f in fc:
+        for tag_, rng in ((f[1], f[3]), (f[2], f[4])):
+            if tag_ != "gamma" and rng[0] == rng[1]:
+                consts.append(rng[0])
+    R.check(consts and all(abs(c - thr) <= 1e-9 * thr for c in consts), "C04-const", "ntru_gen threshold", f"gamma is compared with {consts[0] if consts else '?'} = 1.3689 q",
+            f"comparisons: {[(f[0], f[3], f[4]) for f in fc[:3]]}", key="const|thr")
     R.analysed.setdefault("unsupported", []).extend(S.unsupported[:5])
 
 
